@@ -2,7 +2,7 @@
 import ast
 import copy
 
-from .. import alpha, pkgchains, qsem, qspaces
+from .. import alpha, pkgchains, qsem, qspaces, scopecases
 from ..core import Check, Space
 
 
@@ -71,6 +71,14 @@ class C02(Check):
                                     "lambda positional/keyword, previous stage, packaged field)",
                                     "binder_names": "every admissible assignment from pool ['e','j']"},
                          pkgchains.dupuse, runner="run_chain"))
+        spool = ("e", "ds") if Q else ("e", "j", "ds")
+        out.append(Space("revisit-capture names=" + "/".join(spool),
+                         {"generator": "scopecases.skeletons: an argument mentioning the free name ds is substituted "
+                                       "(called lambda, positional / keyword) into a body where a fusable construct "
+                                       "(13 Int-valued and 5 sequence-valued shapes) sits below one or two uncalled binders",
+                          "binder_names": f"every admissible assignment from pool {list(spool)}; a binder may be spelled "
+                                          "like the free name when that name is not used below it"},
+                         (lambda spool=spool: scopecases.sources(spool))))
         return out
 
     def pair_menu(self, tier):
